@@ -527,7 +527,7 @@ SPECS = {
                             "e2e-outage", "e2e-outage>=1h"],
         "model_modules": ["TR.Model.Backoff", "TR.Lemmas.Backoff", "TR.Mutants.BackoffCapAfter"],
         "lean_files": ["TR.Model.Backoff", "TR.Lemmas.Backoff", "TR.Mutants.BackoffCapAfter"],
-        "sizes": (400, 6000),
+        "sizes": (400, 6000), "drift_factor": 3,
         "rule": "seeded cases, each one configuration (kind exp/rand/retry_policy/retry_policy_rand/policy_exp/policy_rand/policy_exp_of/policy_rand_of/"
                 "policy_custom/fixed/policy_fixed/policy_none; 60 % of the builder-made ones given by their setter chain `chain=` — both orders of "
                 "multiplier / max_interval, default multiplier left out, 1..3 overridden or repeated setters anywhere — with multipliers below 2 "
